@@ -6,6 +6,7 @@ import (
 	"errors"
 	"fmt"
 	"io"
+	"io/fs"
 	"runtime"
 	"strconv"
 	"strings"
@@ -72,6 +73,23 @@ func (o onlyReader) Read(p []byte) (int, error) { return o.r.Read(p) }
 
 var errInjected = errors.New("injected read failure")
 
+// eofLike is a read failure that wraps io.EOF (as an *fs.PathError of a truncated file may): it is a failure all the same.
+type eofLike struct{}
+
+func (eofLike) Error() string        { return "injected read failure: EOF" }
+func (eofLike) Is(target error) bool { return target == io.EOF || target == errInjected }
+
+// injected returns the error value of a fault at position k: a plain error, one that wraps io.EOF, or such a one inside a PathError.
+func injected(k int) error {
+	switch k % 3 {
+	case 1:
+		return eofLike{}
+	case 2:
+		return &fs.PathError{Op: "read", Path: "t.sh", Err: eofLike{}}
+	}
+	return errInjected
+}
+
 type parseResult struct {
 	cmds     []ast.Command
 	comments []*ast.Comment
@@ -106,7 +124,7 @@ func parseOnce(env *interp.ExecEnv, src string, kind string, failAt int) (res pa
 		case "B":
 			in = bufio.NewReader(strings.NewReader(src))
 		default:
-			rs = &runeScanner{s: src, prev: -1, failAt: failAt, err: errInjected}
+			rs = &runeScanner{s: src, prev: -1, failAt: failAt, err: injected(failAt)}
 			in = rs
 		}
 		cmds, comments, err := parser.ParseCommands(env, "t", in)
